@@ -100,6 +100,72 @@ static void ev_cb(unsigned ev, const void *p, uint64_t a, uint64_t b, uint64_t c
 	vec_put(&evbuf, tmp, (size_t)n);
 }
 
+// ---- tracking allocator -------------------------------------------------------------------
+// Fills fresh memory with 0xA5 (so that a field the library forgot to initialise is a wild pointer / huge size, not an
+// accidental zero), keeps the set of live allocations and validates every free, can make the N-th allocation fail, and is
+// checked for leaks after lzma_end. Threads are serialised by the scheduler in controlled runs; the spin lock is for the
+// real-scheduling (TSan) runs.
+#define AT_CAP (1u << 12)
+static struct { void *p; size_t n; } at_tab[AT_CAP];
+static size_t at_live;
+static uint64_t at_count, at_failat;      // at_failat: 1-based index of the allocation that fails (0 = none)
+static int at_lock_flag, at_overflow;
+
+static void at_lock(void) { while (__atomic_test_and_set(&at_lock_flag, __ATOMIC_ACQUIRE)) {} }
+static void at_unlock(void) { __atomic_clear(&at_lock_flag, __ATOMIC_RELEASE); }
+static size_t at_slot(const void *p) { return (size_t)(((uintptr_t)p >> 4) * 0x9E3779B97F4A7C15ull >> 40) & (AT_CAP - 1); }
+
+static void *at_alloc(void *opaque, size_t nmemb, size_t size)
+{
+	(void)opaque;
+	at_lock();
+	const uint64_t k = ++at_count;
+	at_unlock();
+	if (at_failat != 0 && k == at_failat) return NULL;
+	size_t n = nmemb * size;
+	void *p = malloc(n ? n : 1);
+	if (!p) return NULL;
+	memset(p, 0xA5, n);
+	at_lock();
+	size_t i = at_slot(p);
+	for (size_t probe = 0; probe < AT_CAP; ++probe, i = (i + 1) & (AT_CAP - 1))
+		if (at_tab[i].p == NULL || at_tab[i].p == (void *)1) { at_tab[i].p = p; at_tab[i].n = n; ++at_live; i = AT_CAP; break; }
+	if (i != AT_CAP) at_overflow = 1;      // table full: this pointer is not tracked, validation is off from here on
+	at_unlock();
+	return p;
+}
+
+static void at_free(void *opaque, void *p)
+{
+	(void)opaque;
+	if (p == NULL) return;
+	at_lock();
+	size_t i = at_slot(p), n = 0;
+	int found = 0;
+	for (size_t probe = 0; probe < AT_CAP && at_tab[i].p != NULL; ++probe, i = (i + 1) & (AT_CAP - 1))
+		if (at_tab[i].p == p) { found = 1; n = at_tab[i].n; at_tab[i].p = (void *)1; --at_live; break; }
+	at_unlock();
+	if (!found && at_overflow) { free(p); return; }
+	if (!found) {
+		fprintf(stderr, "C07-ALLOC: lzma_free of %p, which is not a live allocation of this stream's allocator\n", p);
+		fflush(stderr);
+		abort();
+	}
+	memset(p, 0x5A, n);
+	free(p);
+}
+
+static lzma_allocator at_allocator = { at_alloc, at_free, NULL };
+
+static void at_reset(void)
+{
+	memset(at_tab, 0, sizeof at_tab);
+	at_live = 0; at_count = 0; at_failat = 0; at_overflow = 0;
+}
+
+// total output capacity the application offers (SIZE_MAX = unlimited): once used up, avail_out stays 0
+static size_t g_outcap = (size_t)-1;
+
 // ---- one decode ----------------------------------------------------------------------------
 typedef struct {
 	lzma_ret ret;
@@ -169,6 +235,10 @@ static void app_loop(lzma_stream *strm, const uint8_t *data, size_t len, slicing
 		if (strm->avail_out == 0) {
 			size_t k = next_slice(&outs, &rng, (size_t)-1, 1 << 16);
 			if (k == 0 && !last_progress) k = 1;
+			if (g_outcap != (size_t)-1) {
+				const size_t left = g_outcap > r->out.n ? g_outcap - r->out.n : 0;
+				if (k > left) k = left;
+			}
 			if (k > ocap) { obuf = realloc(obuf, k); ocap = k; if (!obuf) abort(); }
 			strm->next_out = obuf;
 			strm->avail_out = k;
@@ -273,6 +343,12 @@ int main(void)
 		const uint64_t maxcalls = strtoull(arg(&l, "maxcalls", "2000000"), NULL, 10);
 		const int prog = atoi(arg(&l, "prog", "0"));
 		const int mlraise = atoi(arg(&l, "mlraise", "0"));
+		const int use_alloc = atoi(arg(&l, "alloc", "0"));
+		const uint64_t failat = strtoull(arg(&l, "failat", "0"), NULL, 10);
+		{
+			const char *oc = arg(&l, "outcap", "-1");
+			g_outcap = oc[0] == '-' ? (size_t)-1 : (size_t)strtoull(oc, NULL, 10);
+		}
 
 		sched_config cfg;
 		sched_config_from_env(&cfg);
@@ -295,7 +371,12 @@ int main(void)
 		evbuf.n = 0;
 		ev_nptrs = 0;
 		// the event buffer is not thread safe: traces are recorded only when the scheduler serialises the threads
-		ev_on = have_hook && cfg.mode != SCHED_REAL;
+		// (allocation failures are not part of the model: a decode with an injected failure is not traced)
+		{
+			const char *pre0 = arg(&l, "pre", NULL);
+			const int has_pre = pre0 != NULL && strcmp(pre0, "-") != 0;
+			ev_on = have_hook && cfg.mode != SCHED_REAL && !(use_alloc && failat != 0 && !has_pre);
+		}
 		if (have_hook) lzma_verif_mt_event = ev_cb;
 		mtr.trace = ev_on;
 		sched_stats st;
@@ -303,6 +384,11 @@ int main(void)
 		sched_begin(&cfg);
 		lzma_stream strm = LZMA_STREAM_INIT;
 		lzma_ret ir;
+		at_reset();
+		if (use_alloc) {
+			strm.allocator = &at_allocator;
+			at_failat = failat;      // applies to the first decode on this handle (the abandoned one if there is one)
+		}
 		const char *pre = arg(&l, "pre", NULL);
 		if (pre != NULL && strcmp(pre, "-") != 0) {
 			// abandon a first decode after `precalls` calls (queue possibly partly read), then re-initialise the SAME handle
@@ -321,6 +407,7 @@ int main(void)
 					app_loop(&strm, pdata, plen, ins, outs, slice_seed + 7, fin, atol(arg(&l, "precalls", "3")), maxcalls, prog, 0, &pr);
 				free(pr.out.p); free(pr.info.p);
 				// the input buffer of the abandoned decode must stay valid until the re-initialisation has joined the workers
+				at_failat = 0;
 				ir = lzma_stream_decoder_mt(&strm, &mt);
 				free(pdata);
 				ev_on = saved;
@@ -339,6 +426,11 @@ inited:
 		if (mtr.trace) ev_cb(3, NULL, 0, 0, 0);
 		lzma_end(&strm);
 		sched_end(&st);
+		if (use_alloc && at_live != 0 && !at_overflow) {
+			fprintf(stderr, "C07-ALLOC: %zu allocation(s) of the stream's allocator still live after lzma_end\n", at_live);
+			fflush(stderr);
+			abort();
+		}
 		ev_on = 0;
 		if (have_hook) lzma_verif_mt_event = NULL;
 
